@@ -8,9 +8,13 @@ package main
 
 import (
 	"bytes"
+	"crypto/sha256"
+	"hash"
+
 	"encoding/binary"
 	"encoding/json"
 	"fmt"
+	"github.com/multiformats/go-multihash"
 	"os"
 	"os/exec"
 	"path/filepath"
@@ -72,6 +76,9 @@ type replayFile struct {
 	// its own but does after them, i.e. when it depends on what else the
 	// process did (package-level state in the code under test).
 	History []int `json:"process_history_runs,omitempty"`
+	// Perturb names the perturbation of process-wide state outside the library
+	// under which the worker (and hence any replay) ran, see perturbOf.
+	Perturb string `json:"process_perturbation,omitempty"`
 }
 
 type workerOut struct {
@@ -96,6 +103,7 @@ func runSeed(verifSeed uint64, id string, i int) uint64 {
 }
 
 func main() {
+	applyPerturbation()
 	if len(os.Args) < 2 {
 		usage()
 	}
@@ -172,6 +180,30 @@ func readCur(path string) (int, bool) {
 	}
 	v, err := strconv.Atoi(strings.TrimSpace(string(b)))
 	return v, err == nil && v >= 0
+}
+
+// perturbOf says under which perturbation of process-wide state OUTSIDE the
+// library worker w runs (swarm style: one worker of the pool per kind, the
+// others unperturbed). The library has to behave the same whatever else the
+// process it lives in does with state that is not the library's:
+//
+//	"registry": the global multihash registry has had code 0x22 (murmur3)
+//	re-registered by "another package" with an unrelated hash function - the
+//	registry documents that the last registration wins. HAMT bucket selection
+//	is murmur3 by specification, not "whatever is registered under 0x22".
+func perturbOf(w int) string {
+	if w == 0 {
+		return "registry"
+	}
+	return ""
+}
+
+// applyPerturbation is called first thing in every process.
+func applyPerturbation() {
+	switch os.Getenv("VERIF_PERTURB") {
+	case "registry":
+		multihash.Register(multihash.MURMUR3X64_64, func() hash.Hash { return sha256.New() })
+	}
 }
 
 // heartbeatStale is how long a worker may stay silent before the master
@@ -274,7 +306,7 @@ func worker(args []string) int {
 			runtime.ReadMemStats(&ms)
 			tooBig := ms.HeapAlloc > 6<<30
 			if tooBig || time.Since(time.Unix(0, curStart.Load())) > runTimeout {
-				rf := &replayFile{Property: id, VerifSeed: seed, RunIndex: int(i), RunSeed: runSeed(seed, id, int(i)), Tier: string(tier), Class: "watchdog/run-exceeded-" + runTimeout.String(), Msg: "a single simulated run did not finish within the wall-clock watchdog"}
+				rf := &replayFile{Property: id, VerifSeed: seed, RunIndex: int(i), RunSeed: runSeed(seed, id, int(i)), Tier: string(tier), Perturb: os.Getenv("VERIF_PERTURB"), Class: "watchdog/run-exceeded-" + runTimeout.String(), Msg: "a single simulated run did not finish within the wall-clock watchdog"}
 				b, _ := json.MarshalIndent(rf, "", " ")
 				path := filepath.Join(outDir(), "replays", fmt.Sprintf("%s-%d-%d-hang.json", id, seed, i))
 				_ = os.MkdirAll(filepath.Dir(path), 0o755)
@@ -327,7 +359,7 @@ func worker(args []string) int {
 		}
 		classes[cls] = true
 		snap := ts.Snapshot()
-		rf := &replayFile{Property: id, VerifSeed: seed, RunIndex: i, RunSeed: rs, Tier: string(tier), Class: cls, Msg: res.Violation.Msg, Tapes: snap, Scenario: res.Scenario, Excerpt: res.Excerpt, Layout: checks.LayoutHash()}
+		rf := &replayFile{Property: id, VerifSeed: seed, RunIndex: i, RunSeed: rs, Tier: string(tier), Perturb: os.Getenv("VERIF_PERTURB"), Class: cls, Msg: res.Violation.Msg, Tapes: snap, Scenario: res.Scenario, Excerpt: res.Excerpt, Layout: checks.LayoutHash()}
 		// minimise: same violation class at the same oracle
 		inProc := func(c map[string][]uint64) (*checks.Result, bool) {
 			r := ck.Run(tape.FromSnapshot(rs, c), tier)
@@ -396,7 +428,7 @@ func worker(args []string) int {
 
 // replayInSubprocess judges one candidate tape set in a fresh process.
 func replayInSubprocess(id string, rs, seed uint64, i int, tier checks.Tier, cls string, c map[string][]uint64, out string) bool {
-	rf := &replayFile{Property: id, VerifSeed: seed, RunIndex: i, RunSeed: rs, Tier: string(tier), Class: cls, Tapes: c}
+	rf := &replayFile{Property: id, VerifSeed: seed, RunIndex: i, RunSeed: rs, Tier: string(tier), Class: cls, Tapes: c, Perturb: os.Getenv("VERIF_PERTURB")}
 	b, _ := json.Marshal(rf)
 	p := out + ".cand.json"
 	if err := os.WriteFile(p, b, 0o644); err != nil {
@@ -542,6 +574,12 @@ func replay(id, path string) int {
 	defer os.RemoveAll(dir)
 	cmd := exec.Command(self, "replay1", id, path)
 	cmd.Env = append(os.Environ(), "GORACE=halt_on_error=0 exitcode=0 log_path="+filepath.Join(dir, "race"))
+	if b, err := os.ReadFile(path); err == nil {
+		var rf replayFile
+		if json.Unmarshal(b, &rf) == nil && rf.Perturb != "" {
+			cmd.Env = append(cmd.Env, "VERIF_PERTURB="+rf.Perturb)
+		}
+	}
 	out, _ := cmd.CombinedOutput()
 	os.Stdout.Write(out)
 	code := -1
@@ -739,6 +777,9 @@ func master(id string, tier checks.Tier) int {
 			outp := filepath.Join(tmp, fmt.Sprintf("w%d.json", w))
 			cmd := exec.Command(self, "worker", id, string(tier), strconv.FormatUint(seed, 10), strconv.Itoa(w), strconv.Itoa(W), strconv.Itoa(N), outp)
 			cmd.Env = append(os.Environ(), "GOMAXPROCS=2", "GORACE=halt_on_error=0 exitcode=0 log_path="+filepath.Join(tmp, fmt.Sprintf("race-w%d", w)))
+			if pb := perturbOf(w); pb != "" {
+				cmd.Env = append(cmd.Env, "VERIF_PERTURB="+pb)
+			}
 			var ob bytes.Buffer
 			cmd.Stdout, cmd.Stderr = &ob, &ob
 			err := cmd.Start()
@@ -766,7 +807,7 @@ func master(id string, tier checks.Tier) int {
 						if time.Since(last) > heartbeatStale() {
 							{
 								if i, ok := readCur(outp + ".cur"); ok {
-									rf := &replayFile{Property: id, VerifSeed: seed, RunIndex: i, RunSeed: runSeed(seed, id, i), Tier: string(tier), Class: "watchdog/worker-silent", Msg: "the worker process stopped responding (no heartbeat) during this run and was killed"}
+									rf := &replayFile{Property: id, VerifSeed: seed, RunIndex: i, RunSeed: runSeed(seed, id, i), Tier: string(tier), Perturb: perturbOf(w), Class: "watchdog/worker-silent", Msg: "the worker process stopped responding (no heartbeat) during this run and was killed"}
 									jb, _ := json.MarshalIndent(rf, "", " ")
 									path := filepath.Join(outDir(), "replays", fmt.Sprintf("%s-%d-%d-hang.json", id, seed, i))
 									_ = os.MkdirAll(filepath.Dir(path), 0o755)
@@ -823,7 +864,7 @@ func master(id string, tier checks.Tier) int {
 			harnessTrouble = true
 			continue
 		}
-		rf := &replayFile{Property: id, VerifSeed: seed, RunIndex: i, RunSeed: runSeed(seed, id, i), Tier: string(tier), Class: "process-death", Msg: "the worker process died during this run"}
+		rf := &replayFile{Property: id, VerifSeed: seed, RunIndex: i, RunSeed: runSeed(seed, id, i), Tier: string(tier), Perturb: perturbOf(w), Class: "process-death", Msg: "the worker process died during this run"}
 		jb, _ := json.MarshalIndent(rf, "", " ")
 		path := filepath.Join(outDir(), "replays", fmt.Sprintf("%s-%d-%d-death.json", id, seed, i))
 		_ = os.MkdirAll(filepath.Dir(path), 0o755)
@@ -865,6 +906,9 @@ func master(id string, tier checks.Tier) int {
 			return exitHarness
 		}
 		total.Runs += wo.Runs
+		if pb := perturbOf(w); pb != "" {
+			total.Extra["runs_in_a_process_with_perturbation_"+pb] += wo.Runs
+		}
 		total.Skipped += wo.Skipped
 		total.Execs += wo.Execs
 		total.Events += wo.Events
